@@ -736,6 +736,8 @@ def run(ctx):
         try:
             extra_oracles.univariate_refit_queries(ctx)
             extra_oracles.univariate_constant_history(ctx)
+            from .. import extra_oracles2
+            extra_oracles2.retention(ctx)
         except Exception as ex:
             ctx.obligation('oracle:extra:raised', False, 'correspondence', repr(ex))
             ctx.violation('oracle:extra:raised:' + type(ex).__name__, 'extra oracle raised ' + repr(ex), {'repro': '# see tools/vf/extra_oracles.py'})
